@@ -546,7 +546,8 @@ def execute(case, keep_log=False):
                 if merged:
                     res.probe("merge_tracks_load")
                 faulted = fs.fired != fired_before
-                if state == "ref" and not faulted:
+                returned_despite = faulted and outcome == "loaded"  # must then be the right result
+                if state == "ref" and (not faulted or returned_despite):
                     if outcome != "loaded":
                         res.violation("D1-durable", "load", "an acknowledged file could not be loaded over route %s: %s" % (route, outcome), site=route)
                     elif file_ok:
